@@ -233,14 +233,16 @@ def race_pass(pid, part, tier, seconds):
         lines = block.splitlines()
         for i, l in enumerate(lines):
             if re.match(r"^(Write|Read|Previous write|Previous read) at ", l.strip()) or re.match(r"^(Write|Read|Previous write|Previous read) at ", l):
-                # first frame: function line, then file line
+                # first frame outside the Go runtime / standard library: function line, then file line
                 fn, fl = "", ""
-                for j in range(i + 1, min(i + 4, len(lines))):
-                    if lines[j].startswith("  ") and not lines[j].startswith("      ") and not fn:
-                        fn = lines[j].strip()
-                    elif lines[j].startswith("      ") and not fl:
-                        fl = lines[j].strip().split(" ")[0]
+                j = i + 1
+                while j + 1 < len(lines) and lines[j].startswith("  ") and lines[j].strip():
+                    f1, f2 = lines[j].strip(), lines[j + 1].strip().split(" ")[0]
+                    if not fn or "/toolchain@" in fl or "/go/src/" in fl or fl.startswith("/usr/"):
+                        fn, fl = f1, f2
+                    if not ("/toolchain@" in fl or "/go/src/" in fl or fl.startswith("/usr/")):
                         break
+                    j += 2
                 tops.append((fn, fl))
         def under_test(fl):
             return ("/instr/" in fl or fl.startswith(REPO + "/")) and "zz_verif" not in fl and "/x/verif/" not in fl
